@@ -2,7 +2,8 @@
 From Coq Require Import List NArith Bool.
 From Coq.Strings Require Import Byte.
 From Model Require Import Bytes Utf8.
-From Proofs Require Import Utf8Facts Utf8Tie.
+From Model Require Import Frame Conn.
+From Proofs Require Import Utf8Facts Utf8Tie ViolationFacts.
 From Gen Require Import GenUtf8.
 Import ListNotations.
 Open Scope N_scope.
@@ -35,6 +36,21 @@ Theorem C05_split_independent : forall s a b,
   uvalidate s (a ++ b) = match uvalidate s a with Some s' => uvalidate s' b | None => None end.
 Proof. exact uvalidate_app. Qed.
 Print Assumptions C05_split_independent.
+
+(* delivery: the fragments of one (uncompressed) text message, however the payload was cut into frames, are delivered as
+   Text exactly when the concatenated payload is well-formed; otherwise the message builder raises the critical
+   protocol error and no Text is produced *)
+Theorem C05_text_delivered_iff_wellformed : forall c frames first rest,
+  frames = first :: rest -> f_op first = OP_TEXT -> f_rsv1 first = false ->
+  let p := concat (map f_payload frames) in
+  (utf8_wf p -> snd (build_message c frames) = inl (MText p)) /\
+  (~ utf8_wf p -> snd (build_message c frames) = inr MCritical).
+Proof. exact text_delivered_iff_wellformed. Qed.
+Print Assumptions C05_text_delivered_iff_wellformed.
+
+Theorem C05_close_reason_must_be_wellformed : forall c a b reason, ~ utf8_wf reason ->
+  snd (build_message c [mk_close (a :: b :: reason)]) = inr MCritical.
+Proof. exact close_bad_reason_is_error. Qed.
 
 Example C05_nonvacuous :
   utf8_wf [x68; xe2; x82; xac; xf0; x9f; x98; x80] /\ ~ viable [xed; xa0] /\ ~ utf8_wf [xc0; xaf] /\ viable [xf0; x9f].
